@@ -20,6 +20,11 @@ type Prov struct {
 	Globals map[*ssa.Global]bool // reachable from these package-level variables
 	Fresh   bool                 // allocated during this call (here or in a callee)
 	Unknown bool                 // cannot tell
+	// Holds: the (fresh) object contains references into the memory of these
+	// package-level variables (a shallow copy of a global struct with maps /
+	// slices / pointers in it). Writing the object itself is not a write to the
+	// global; handing it out makes the global's memory reachable from it.
+	Holds map[*ssa.Global]bool
 }
 
 func (p *Prov) merge(q Prov) bool {
@@ -49,7 +54,37 @@ func (p *Prov) merge(q Prov) bool {
 			ch = true
 		}
 	}
+	for g := range q.Holds {
+		if !p.Holds[g] {
+			if p.Holds == nil {
+				p.Holds = map[*ssa.Global]bool{}
+			}
+			p.Holds[g] = true
+			ch = true
+		}
+	}
 	return ch
+}
+
+// sharedGlobals: the package-level variables whose memory a value with this
+// provenance references, directly or through what it holds.
+func (p Prov) sharedGlobals() []*ssa.Global {
+	var out []*ssa.Global
+	seen := map[*ssa.Global]bool{}
+	for g := range p.Globals {
+		if !seen[g] {
+			seen[g] = true
+			out = append(out, g)
+		}
+	}
+	for g := range p.Holds {
+		if !seen[g] {
+			seen[g] = true
+			out = append(out, g)
+		}
+	}
+	sort.Slice(out, func(i, j int) bool { return out[i].Name() < out[j].Name() })
+	return out
 }
 
 func (p Prov) String() string {
@@ -67,6 +102,9 @@ func (p Prov) String() string {
 	var gs []string
 	for g := range p.Globals {
 		gs = append(gs, "global:"+g.Name())
+	}
+	for g := range p.Holds {
+		gs = append(gs, "holds:"+g.Name())
 	}
 	sort.Strings(gs)
 	s = append(s, gs...)
@@ -98,6 +136,9 @@ type WriteSite struct {
 	What  string // "store", "mapupdate", "append", "copy", "delete", "call <callee>"
 	Prov  Prov
 	Field string // "Type.Field" when the store goes through a FieldAddr
+	// Target: for leak sites, the provenance of the memory written (Prov is
+	// then the provenance of the value).
+	Target Prov
 }
 
 type Effects struct {
@@ -118,6 +159,9 @@ type Effects struct {
 	// stored (retained) in non-local memory by this function or a callee.
 	StoresParam uint64
 	RetainSites []WriteSite
+	// LeakSites: a value that references package-level memory is stored into
+	// non-local memory (an object of the caller, another global).
+	LeakSites []WriteSite
 }
 
 func (ef *Effects) Writes() bool {
@@ -208,6 +252,7 @@ func (a *effectsAnalysis) analyse(fn *ssa.Function) {
 	}
 	ef.Sites = ef.Sites[:0]
 	ef.RetainSites = ef.RetainSites[:0]
+	ef.LeakSites = ef.LeakSites[:0]
 	ef.MapRanges = ef.MapRanges[:0]
 	for _, b := range fn.Blocks {
 		for _, in := range b.Instrs {
@@ -315,6 +360,12 @@ func (a *effectsAnalysis) write(ef *Effects, p Prov, site WriteSite) {
 // retain records that memory reachable from parameters (per vp) is stored
 // into non-local memory.
 func (a *effectsAnalysis) retain(ef *Effects, vp Prov, site WriteSite) {
+	if len(vp.Globals)+len(vp.Holds) > 0 {
+		ls := site
+		ls.Target = site.Prov
+		ls.Prov = vp
+		ef.LeakSites = append(ef.LeakSites, ls)
+	}
 	if vp.Params == 0 {
 		return
 	}
@@ -422,8 +473,24 @@ func (a *effectsAnalysis) update(fn *ssa.Function, v ssa.Value) bool {
 	switch x := v.(type) {
 	case *ssa.Alloc:
 		// the allocation itself is fresh; what it *contains* is the union of
-		// what is stored into it (handled at loads)
-		return a.set(v, Prov{Fresh: true})
+		// what is stored into it (handled at loads). References into
+		// package-level memory among the contents are remembered as Holds.
+		np := Prov{Fresh: true}
+		var cont Prov
+		a.allocContents(x, &cont, map[ssa.Value]bool{})
+		for g := range cont.Globals {
+			if np.Holds == nil {
+				np.Holds = map[*ssa.Global]bool{}
+			}
+			np.Holds[g] = true
+		}
+		for g := range cont.Holds {
+			if np.Holds == nil {
+				np.Holds = map[*ssa.Global]bool{}
+			}
+			np.Holds[g] = true
+		}
+		return a.set(v, np)
 	case *ssa.MakeSlice, *ssa.MakeMap, *ssa.MakeChan:
 		return a.set(v, Prov{Fresh: true})
 	case *ssa.MakeClosure:
@@ -550,7 +617,7 @@ func (a *effectsAnalysis) allocContents(root ssa.Value, p *Prov, seen map[ssa.Va
 func (a *effectsAnalysis) calleeMayStore(site ssa.CallInstruction) Prov {
 	c := site.Common()
 	name := calleeName(c)
-	if m, ok := models[name]; ok {
+	if m, ok := lookupModel(name); ok {
 		p := Prov{Fresh: true}
 		// decoders copy: modelled callees with an explicit Retains list keep
 		// references only to those arguments
@@ -630,6 +697,9 @@ func (a *effectsAnalysis) callResultProv(x *ssa.Call, idx int) Prov {
 		for g := range rp.Globals {
 			p.merge(Prov{Globals: map[*ssa.Global]bool{g: true}})
 		}
+		for g := range rp.Holds {
+			p.merge(Prov{Holds: map[*ssa.Global]bool{g: true}})
+		}
 		for i := range f.Params {
 			if rp.Params&(1<<uint(i)) != 0 && i < len(full) {
 				q := a.get(full[i])
@@ -644,7 +714,7 @@ func (a *effectsAnalysis) callResultProv(x *ssa.Call, idx int) Prov {
 		return p
 	}
 	name := calleeName(c)
-	if m, ok := models[name]; ok {
+	if m, ok := lookupModel(name); ok {
 		if prop, has := provPropagators[name]; has {
 			if !prop {
 				return Prov{}
@@ -764,7 +834,7 @@ func (a *effectsAnalysis) callEffects(fn *ssa.Function, ef *Effects, site ssa.Ca
 	if strings.HasSuffix(name, ".init") {
 		return // package initialisers of imports
 	}
-	m, ok := models[name]
+	m, ok := lookupModel(name)
 	if !ok && c.IsInvoke() && !a.w.InRepoPath(pkgPathOfType(c.Value.Type())) {
 		if _, anon := c.Value.Type().(*types.Named); !anon || !strings.Contains(pkgPathOfType(c.Value.Type()), ".") {
 			// a method of a caller-supplied object behind an anonymous or
